@@ -15,6 +15,7 @@ import SwV.Model.C06RS
 import SwV.Lemmas.C06RS
 import SwV.Lemmas.C06Certs
 import SwV.Lemmas.C06MDS
+import SwV.Lemmas.C06Chunks
 
 namespace SwV.Props.C06
 open SwV.Model.C06 SwV.Spec.C06 SwV.Lemmas.C06
@@ -373,5 +374,42 @@ set_option maxRecDepth 100000 in
 example : rsCodec.recon (eraseCol ([1, 2, 3, 4, 5, 6, 7, 8, 9, 10] ++ matVec rsParity [1, 2, 3, 4, 5, 6, 7, 8, 9, 10])
       [false, true, false, true, true, false, true, true, true, true, true, true, false, true])
     = some ([1, 2, 3, 4, 5, 6, 7, 8, 9, 10] ++ matVec rsParity [1, 2, 3, 4, 5, 6, 7, 8, 9, 10]) := by decide +kernel
+
+/-! ### the rebuilder's chunk loop (shards larger than one rebuild buffer)
+
+rebuildEcFiles reads, reconstructs and writes `C = ErasureCodingSmallBlockSize` bytes per iteration.  For shards
+far above `C` the driver follows the loop on the shard LENGTHS (`rebuildLen`; each chunk's content is covered by
+`ec_rebuild_concrete`), and the harness reports per regenerated shard its length and one equality flag per chunk
+of the ORIGINAL shard file; `rebuildChunksJudge` is the judge "regenerated byte-identically" over such a report. -/
+
+/-- the length-level read phase is the read phase of the byte-level model `rebuild` -/
+theorem rebuild_reads_len (C start : Nat) (present : List (Option (List Nat))) (ibds : Nat) :
+    rebuildReads C start present ibds = rebuildReadsLen C start (present.map (·.map List.length)) ibds :=
+  rebuildReads_len C start present ibds
+
+/-- shard files of one common length that is a multiple of the chunk size (every production shard: `nL·L + nS·S`
+    with `C = S ∣ L`), at least `k` of them present, ANY number of chunks `q`: the loop ends without error having
+    written exactly the original length to every regenerated shard — and the report the model then predicts
+    (original length, every chunk equal) is accepted by the chunk judge for every set of lost shards -/
+theorem rebuild_chunks_model_passes (k m C q : Nat) (mask : List Bool) (lost : List Nat) (hC : 0 < C) (hk0 : 0 < k)
+    (hk : k ≤ (mask.filter id).length) :
+    rebuildLen k C (uniformLens (q * C) mask) = some (q * C) ∧
+    rebuildChunksJudge m C (q * C) lost true (lost.map fun _ => (q * C, List.replicate q true)) = none :=
+  ⟨rebuildLen_uniform k C q mask hC hk0 hk, chunksJudge_all_equal m C q lost⟩
+
+/-- non-vacuity: 3 chunks, shards 0 and 12 lost of 14 -/
+example : (0 < 4 ∧ 0 < 10) ∧
+    10 ≤ (([false, true, true, true, true, true, true, true, true, true, true, true, false, true] : List Bool).filter id).length := by
+  decide
+
+/-- the judge is not vacuous: a regenerated shard whose second and third chunk repeat the first (right length, first
+    flag set, the others not — what a rebuild that keeps reconstructed buffers across iterations writes), a short
+    one, and a report that does not cover the whole shard are all rejected; the exact one passes -/
+example : rebuildChunksJudge 4 4 12 [0, 12] true [(12, [true, true, true]), (12, [true, false, false])]
+    = some "rebuildEcFiles/regenerated-differs-after-first-chunk" := by decide
+example : rebuildChunksJudge 4 4 12 [0] true [(4, [true, false, false])] = some "rebuildEcFiles/regenerated-length-differs" := by decide
+example : rebuildChunksJudge 4 4 12 [0] true [(12, [true])] = some "rebuildEcFiles/regenerated-not-fully-compared" := by decide
+example : rebuildChunksJudge 4 4 12 [0] false [] = some "rebuildEcFiles/regenerated-differs" := by decide
+example : rebuildChunksJudge 4 4 12 [0, 12] true [(12, [true, true, true]), (12, [true, true, true])] = none := by decide
 
 end SwV.Props.C06
